@@ -72,6 +72,12 @@ func (f *VrtFakeQuartz) Fire(key string) bool {
 		return false
 	}
 	_ = jd.Job().Execute(context.Background())
+	// like the real scheduler: a trigger with no further fire time (run-once)
+	// expires with its firing and the job leaves the queue
+	if _, once := f.Triggers[key].(*quartz.RunOnceTrigger); once {
+		delete(f.Jobs, key)
+		delete(f.Triggers, key)
+	}
 	return true
 }
 
